@@ -482,10 +482,22 @@ class Gen:
                 hsig = src.text[f["start"]:f["body_open"]]
                 hbody = src.text[f["body_open"] + 1:f["end"] - 1].strip()
                 hm = mask(hbody)
-                if re.search(r"\breturn\b|\bloop\b|\bwhile\b|\bfor\b|\bunsafe\b", hm):
+                if re.search(r"\bloop\b|\bwhile\b|\bfor\b|\bunsafe\b", hm):
                     continue
                 qmode = None
-                if "?" in hm:
+                if re.search(r"\breturn\b", hm):
+                    # a helper with early `return`s can be beta-reduced only where the call IS the caller's tail expression
+                    # (returning from the helper = returning that value from the caller) and both return the crate's Result
+                    op_ = mm.end() - 1
+                    cl_ = match_close(mb, op_)
+                    after_ = mb[cl_ + 1:].strip()
+                    before_ = mb[:mm.start()].rstrip()
+                    res_h = re.search(r"->\s*Result\s*<", mask(hsig)) is not None
+                    res_c = re.search(r"->\s*(\(\s*\w+\s*:\s*)?Result\s*<", mask(caller_sig)) is not None
+                    if not (res_h and res_c and after_ in ("", "}") and (before_ == "" or before_[-1] in ";}{")):
+                        continue
+                    qmode = "tail"
+                elif "?" in hm:
                     # a helper that propagates errors with `?` can still be beta-reduced where its result is itself
                     # propagated: `h(..)?` (the block's `?` leaves the caller exactly as the call's `?` would) or
                     # `return h(..);` - provided helper and caller both return the crate's Result
@@ -542,6 +554,8 @@ class Gen:
                 for pn, a_ in zip(pnames, args):
                     new = re.sub(r"(?<![\w.])%s\b" % re.escape(pn), a_ if re.fullmatch(r"\w+", a_) else "(" + a_ + ")", new)
                 end_ = cl + 1
+                if qmode == "tail":
+                    is_block = True
                 if qmode == "try":
                     # `h(..)?`: the helper's final `Ok(e)` becomes `e`; the `?` of the call is consumed
                     tm = re.search(r"(^|[;}])\s*Ok\s*\(", mask(new))
@@ -564,7 +578,7 @@ class Gen:
             a, b, new, name, hpath = hit
             self.fidelity.append(dict(rule="R-inline", file=path, line=body_line + body.count("\n", 0, a), item=key,
                                       before=re.sub(r"\s+", " ", body[a:b]), after=re.sub(r"\s+", " ", new),
-                                      trusted="nothing (beta-reduction of the loop-free, return-free helper %s from %s, which the unit does not list; a helper using `?` is reduced only where its own result is propagated by `?` or `return`)" % (name, hpath)))
+                                      trusted="nothing (beta-reduction of the loop-free, return-free helper %s from %s, which the unit does not list; a helper using `?` is reduced only where its own result is propagated by `?` or `return`; a helper with early returns only where the call is the caller's tail expression)" % (name, hpath)))
             body = body[:a] + new + body[b:]
         return body
 
